@@ -40,6 +40,7 @@ type verifC16Call struct {
 	cancel    context.CancelFunc
 	req       *http.Request
 	completed bool
+	bare      bool
 	busy      bool
 	began     time.Time
 	res       chan string
@@ -92,6 +93,8 @@ func VerifC16NewWire(flavours []string, withTracer bool) *VerifC16Wire {
 		}
 		if fl != "bare" {
 			base = withWireCapture(base)
+		} else {
+			c.bare = true
 		}
 		c.ctx = base
 		// the HTTP request of the call carries a context derived from the caller's
@@ -143,9 +146,10 @@ func (v *VerifC16Wire) wait(c *verifC16Call, d time.Duration) (string, bool) {
 }
 
 // pendingCheck: an observation of (or a completion for) a wait that is pending is only
-// meaningful well inside its grace period.
-func (v *VerifC16Wire) pendingCheck(c *verifC16Call) {
-	if c.busy && !c.completed && time.Since(c.began) > verifC16Margin {
+// meaningful well inside its grace period. pending = the wait was pending, without a completed
+// trace, when the step began.
+func (v *VerifC16Wire) pendingCheck(c *verifC16Call, pending bool) {
+	if pending && time.Since(c.began) > verifC16Margin {
 		v.Slow = true
 	}
 }
@@ -172,12 +176,13 @@ func (v *VerifC16Wire) Do(op string) string {
 		c.busy = true
 		go func() { res <- verifC16Examine(pctx) }()
 		<-pctx.entered
-		if c.completed {
-			// the trace is there: the examination returns by itself
+		if c.completed || c.bare {
+			// the trace is there (or there is nothing to wait on): the examination returns by itself
 			r, _ := v.wait(c, v.JoinT)
 			return r
 		}
 		r, _ := v.wait(c, v.Settle) // let it reach its select
+		v.pendingCheck(c, true)
 		return r
 	case "x":
 		c.cancel()
@@ -187,32 +192,34 @@ func (v *VerifC16Wire) Do(op string) string {
 		if len(f) > 2 {
 			id, _ = strconv.Atoi(f[2])
 		}
-		v.pendingCheck(c)
+		pending := c.busy && !c.completed
 		tr := tracer.Trace{TestName: c.name, Request: c.req}
 		if id != 0 {
 			tr.Response = &http.Response{StatusCode: id, Header: http.Header{}}
 		}
 		v.wt.Complete(tr)
-		v.pendingCheck(c)
+		v.pendingCheck(c, pending)
 		c.completed = true
 		return ""
 	case "p":
 		if !c.busy {
 			return "idle"
 		}
+		pending := !c.completed
 		r, _ := v.wait(c, v.PeekT)
-		v.pendingCheck(c)
+		v.pendingCheck(c, pending)
 		return r
 	case "j":
 		if !c.busy {
 			return "idle"
 		}
 		d := v.JoinT
-		if !c.completed {
+		pending := !c.completed
+		if pending {
 			d = v.PeekT
 		}
 		r, _ := v.wait(c, d)
-		v.pendingCheck(c)
+		v.pendingCheck(c, pending)
 		return r
 	case "g":
 		if !c.busy {
